@@ -267,6 +267,8 @@ def mon_pubsub(session, ev, name, before, out_i, crash_i):
     import funcs as Fn
     ref = session.__dict__.setdefault('pubsub_ref', {'ch': {}, 'pat': {}})     # name -> ordered list of conns
     c, fields = ev[1], ev[2]
+    if crash_i == 'ConnectionError':
+        return     # outage: nothing was executed (C20 judges that)
     if (crash_i is not None and name != 'exec') or (before is not None and before['conns'][c]['dead']):
         return     # an escaped exception is judged by C04; a dead connection is outside this property
     mine = out_i.get(c, [])
@@ -358,6 +360,8 @@ def mon_pubsub(session, ev, name, before, out_i, crash_i):
 def mon_track_queue(session, ev, name, before, out_i, crash_i):
     """remember the raw queued requests per connection (used by the EXEC clauses of other monitors)"""
     c, fields = ev[1], ev[2]
+    if crash_i == 'ConnectionError':
+        return
     mine = out_i.get(c, [])
     q = session.__dict__.setdefault('exec_queue', {})
     if name == 'multi' and mine == [b'OK']:
